@@ -462,7 +462,45 @@ class SymEval:
                 else:
                     yield q, self.simplify(call)
             return
-        yield r, self.val(r, node)
+        # any other expression: calls / awaits nested in it (outside short-circuit and comprehension scopes) are
+        # evaluated first, left to right, and replaced by their values
+        inner = self._liftable(node)
+        if not inner:
+            yield r, self.val(r, node)
+            return
+        states = [(r, {})]
+        for c in inner:
+            nxt = []
+            for q, m in states:
+                for q2, v in self.eval_value(q, c, fn, loop, depth):
+                    m2 = dict(m)
+                    m2[id(c)] = v if v is not None else ast.Constant(value=None)
+                    nxt.append((q2, m2))
+            states = nxt
+        for q, m in states:
+            val = self.val(q, _copy_keep_ids(node, m))
+            yield q, _unlift(val)
+
+    @staticmethod
+    def _liftable(node):
+        out = []
+
+        def walk(n, top):
+            if isinstance(n, (ast.Lambda, ast.ListComp, ast.SetComp, ast.DictComp, ast.GeneratorExp)):
+                return
+            if isinstance(n, (ast.Call, ast.Await, ast.Yield, ast.YieldFrom)) and not top:
+                out.append(n)
+                return
+            if isinstance(n, ast.BoolOp):
+                walk(n.values[0], False)
+                return
+            if isinstance(n, ast.IfExp):
+                walk(n.test, False)
+                return
+            for ch in ast.iter_child_nodes(n):
+                walk(ch, False)
+        walk(node, True)
+        return out
 
     def stmt(self, s, r, fn, loop, depth):
         if isinstance(s, ast.Expr):
@@ -595,6 +633,48 @@ def _mark_stale(r, base):
     for c, o in r.conds:
         if b in c:
             r.stale.add(c)
+
+
+class _Lifted(ast.expr):
+    """placeholder carrying an already evaluated value through substitution (never substituted again)"""
+    _fields = ()
+
+    def __init__(self, value=None):
+        super().__init__()
+        self.lifted = value
+
+    def __deepcopy__(self, memo):
+        return _Lifted(self.lifted)
+
+
+def _copy_keep_ids(node, m):
+    """the expression with every lifted sub-expression (by identity) replaced by a placeholder"""
+    class Clone(ast.NodeTransformer):
+        def generic_visit(self_, n):
+            if id(n) in m:
+                return _Lifted(m[id(n)])
+            new = type(n)()
+            for f, v in ast.iter_fields(n):
+                if isinstance(v, list):
+                    setattr(new, f, [self_.generic_visit(x) if isinstance(x, ast.AST) else x for x in v])
+                elif isinstance(v, ast.AST):
+                    setattr(new, f, self_.generic_visit(v))
+                else:
+                    setattr(new, f, v)
+            for a in ('lineno', 'col_offset', 'end_lineno', 'end_col_offset'):
+                if hasattr(n, a):
+                    setattr(new, a, getattr(n, a))
+            return new
+    return Clone().generic_visit(node)
+
+
+def _unlift(e):
+    class U(ast.NodeTransformer):
+        def visit(self_, n):
+            if isinstance(n, _Lifted):
+                return n.lifted
+            return super().visit(n)
+    return ast.fix_missing_locations(U().visit(e)) if e is not None else None
 
 
 def nf(e):
